@@ -480,7 +480,7 @@ def _jobs_for(prop, tier):
         return [j for j in jobs_option_below(tier) if j[1][3] == 'combinations'] + jobs_combinations(tier) + jobs_axis0(tier, 'combinations') + jobs_record_below(tier, ('combinations',))
     if prop == 'C03':
         return jobs_c03(tier) + jobs_option_reduce(tier) + jobs_axis(tier, ('reduce',)) + jobs_reduce_nonlocal(tier) + jobs_unmasked_passthrough(('reduce_next',)) + jobs_record_reduce(tier)
-    return {'C02': (lambda t: jobs_c02(t) + jobs_numpy_toregular(t) + jobs_regular_getitem_jagged(t) + jobs_list_asslice(t) + jobs_indexed_widths(t)), 'C03': jobs_c03, 'C04': (lambda t: jobs_c04(t) + jobs_numpy_toregular(t)), 'C06': (lambda t: jobs_c06(t) + jobs_axis(t, ('sort', 'argsort')) + jobs_numpy_sort(t) + jobs_sort_nonlocal(t) + jobs_option_sort(t) + jobs_option_sort_above(t) + jobs_option_argsort(t) + jobs_string_argsort(t) + jobs_unmasked_passthrough(('sort_next', 'argsort_next'))), 'C08': (lambda t: jobs_c08(t) + jobs_numpy(t) + jobs_numpy_types(t) + jobs_union(t) + jobs_reverse_merge(t) + jobs_record_merge(t) + jobs_list_merge(t) + [j for j in jobs_record_named(t) if j[0] is h_record_mergemany_named] + jobs_merge_union(t) + jobs_union_ops(t)), 'C17': (lambda t: jobs_c17(t) + jobs_record_keys(t) + jobs_record_key_at(t) + jobs_node_form(t) + jobs_numpy_form(t) + jobs_record_form(t)), 'C12': (lambda t: jobs_numpy(t) + jobs_numpy_astype(t) + [(h_index_alloc, (), 900)] + [(h_axis0, (L_, 'combinations', n_, True), 900) for L_, n_ in ((1, 2), (2, 3), (1, 3), (0, 2))] + [j for j in jobs_numpy_getitem(t) if j[1][3] == 'array']), 'C10': (lambda t: jobs_c10(t) + [j for j in jobs_record_named(t) if j[0] is h_record_field_key] + jobs_project(t) + [j for j in jobs_option_below(t) if j[1][3] in ('getitem_field', 'getitem_fields')] + jobs_record_setitem(t) + jobs_record_key_at(t)), 'C05': jobs_c05, 'C09': jobs_c09}.get(prop, lambda t: [])(tier)
+    return {'C02': (lambda t: jobs_c02(t) + jobs_numpy_toregular(t) + jobs_regular_getitem_jagged(t) + jobs_list_asslice(t) + jobs_indexed_widths(t)), 'C03': jobs_c03, 'C04': (lambda t: jobs_c04(t) + jobs_numpy_toregular(t)), 'C06': (lambda t: jobs_c06(t) + jobs_axis(t, ('sort', 'argsort')) + jobs_numpy_sort(t) + jobs_sort_nonlocal(t) + jobs_option_sort(t) + jobs_option_sort_above(t) + jobs_option_argsort(t) + jobs_string_argsort(t) + jobs_unmasked_passthrough(('sort_next', 'argsort_next'))), 'C08': (lambda t: jobs_c08(t) + jobs_numpy(t) + jobs_numpy_types(t) + jobs_union(t) + jobs_reverse_merge(t) + jobs_record_merge(t) + jobs_list_merge(t) + [j for j in jobs_record_named(t) if j[0] is h_record_mergemany_named] + jobs_merge_union(t) + jobs_union_ops(t)), 'C17': (lambda t: jobs_c17(t) + jobs_record_keys(t) + jobs_record_key_at(t) + jobs_node_form(t) + jobs_numpy_form(t) + jobs_record_form(t) + jobs_node_type(t)), 'C12': (lambda t: jobs_numpy(t) + jobs_numpy_astype(t) + [(h_index_alloc, (), 900)] + [(h_axis0, (L_, 'combinations', n_, True), 900) for L_, n_ in ((1, 2), (2, 3), (1, 3), (0, 2))] + [j for j in jobs_numpy_getitem(t) if j[1][3] == 'array']), 'C10': (lambda t: jobs_c10(t) + [j for j in jobs_record_named(t) if j[0] is h_record_field_key] + jobs_project(t) + [j for j in jobs_option_below(t) if j[1][3] in ('getitem_field', 'getitem_fields')] + jobs_record_setitem(t) + jobs_record_key_at(t)), 'C05': jobs_c05, 'C09': jobs_c09}.get(prop, lambda t: [])(tier)
 
 
 # ------------------------------------------------------------------------------------------------ C01: getitem_next of list nodes
@@ -5880,6 +5880,119 @@ def jobs_record_form(tier):
     if tier != 'quick':
         q += [(None, 1), (('x', 'y', 'z'), 3), (None, 0), (('k',), 1)]
     return [(h_record_form, a, 900) for a in q]
+
+
+TYPE_OF = {   # class -> (Type class of node.type(), its source file) ; None = the content's own type object (an indexed node is transparent)
+    'ListOffsetArray64': 'ListType', 'ListOffsetArray32': 'ListType', 'ListOffsetArrayU32': 'ListType', 'ListArray64': 'ListType', 'ListArray32': 'ListType', 'ListArrayU32': 'ListType',
+    'RegularArray': 'RegularType', 'IndexedArray64': None, 'IndexedArray32': None, 'IndexedArrayU32': None,
+    'IndexedOptionArray64': 'OptionType', 'IndexedOptionArray32': 'OptionType', 'ByteMaskedArray': 'OptionType', 'BitMaskedArray': 'OptionType', 'UnmaskedArray': 'OptionType',
+}
+TYPE_SRCS = ['src/libawkward/type/ListType.cpp', 'src/libawkward/type/RegularType.cpp', 'src/libawkward/type/OptionType.cpp', 'src/libawkward/type/Type.cpp']
+
+
+@guard
+def h_node_type(cls, variant=None):
+    """type(typestrs) of a list / indexed / option node without parameters (the path every node takes: form(true), then Form::type): lists are
+    `var * T`, fixed-size lists `size * T` with the node's size, option nodes `?T` (option[T]), an indexed node has the type of its content -
+    where T is exactly the type the content's own form reports"""
+    tname = TYPE_OF[cls]
+    nc = NodeCtx(['LOA', 'LA', 'RA', 'IA', 'BMA', 'BIT', 'UMA', 'IDX', 'CNT', 'UTL', 'KD', 'IDS', 'EA'], [], unwind=24)
+    from .mharness import module_of as _mo
+    from .cpp01 import vtable_slots
+    for f in TYPE_SRCS:
+        nc.m.eng.mods.append(_mo(f))
+    nc.m.eng.stubs.update(string_stubs(nc))
+    fslots, nf = vtable_slots(_mo(SRC['EA']), 'N7awkward9EmptyFormE')
+    tslot = [k for s_, k in fslots.items() if '4typeERKSt3map' in s_][0]
+    nc.m.record('formvt', {8 * k: (Ptr(('func', 'vf$form%d' % k), 0), 8) for k in range(nf)}, const=True)
+    # the content's form (a test double with a Form vtable) and the type it reports (an opaque Type object without parameters)
+    tcells = {0: (Ptr('fakevt', 0), 8)}
+    nc.empty_map(tcells, 8, 'contenttype')
+    _string_cells(tcells, 56, 'contenttype', '')
+    ctype = nc.m.record('contenttype', tcells)
+    fcells = {0: (Ptr('formvt', 0), 8), 8: (BV(0, 8), 1)}
+    nc.empty_map(fcells, 16, 'contentform')
+    fcells[64] = (NULL, 8); fcells[72] = (NULL, 8)
+    cform = nc.m.record('contentform', fcells, const=True)
+    asked = []
+
+    def s_form(eng, fr, ins, st, name, argv):
+        nc._ret(st, argv[0], cform)
+        return None
+
+    def s_form_type(eng, fr, ins, st, name, argv):
+        asked.append(st.pc)
+        nc._ret(st, argv[0], ctype)
+        return None
+    nc.m.eng.stubs['vf$slot%d' % nc.slot('4formEb')] = s_form
+    nc.m.eng.stubs['vf$form%d' % tslot] = s_form_type
+    size = None
+    if cls == 'RegularArray' or cls.startswith('ListOffsetArray') or cls.startswith('ListArray'):
+        this, lists, starts, offs, short = list_node(nc, cls, (3, 2) if cls == 'RegularArray' else (1, 2))
+        size = 3 if cls == 'RegularArray' else None
+    elif cls.startswith('Indexed'):
+        option = 'Option' in cls
+        if cls.endswith('64') and not cls.endswith('U32'):
+            this, idx = build_option64(nc, (False, True) if option else (False, False), option=option)
+        else:
+            this, idx = build_indexed(nc, cls, (False, True) if option else (False, False), nc.content0, nc.lencontent, 'node')
+        short = '14IndexedArrayOfI%sLb%dEE' % ({'64': 'l', '32': 'i', 'U32': 'j'}[cls[len('IndexedOptionArray' if option else 'IndexedArray'):]], 1 if option else 0)
+    elif cls == 'ByteMaskedArray':
+        this, mk = build_bytemasked(nc, (False, True), True)
+        short = '15ByteMaskedArray'
+    elif cls == 'BitMaskedArray':
+        this, a0 = build_bitmasked(nc, (False, True, False), True, True)
+        short = '14BitMaskedArray'
+    else:
+        this, vals = build_unmasked(nc, 2)
+        short = '13UnmaskedArray'
+    tsc = {}
+    nc.empty_map(tsc, 0, 'typestrs')
+    typestrs = nc.m.record('typestrs', tsc, const=True)
+    nc.m.record('ret', {})
+    cands = [f for mod_ in nc.m.eng.mods for f in mod_.func_src if f.startswith('_ZNK7awkward%s4typeERKSt3map' % short)]
+    out = nc.m.call(cands[0], [Ptr('ret', 0), this, typestrs])
+    obls = [('type does not raise', out.raised), ('the content\'s form is asked for its type', z3.Not(z3.Or(asked + [z3.BoolVal(False)])))]
+    res = out.mem.o['ret'].cells[0][0]
+    for g, q in nodeh.ptr_cases(res):
+        g = z3.And(g, z3.Not(out.raised))
+        if q.obj is None:
+            obls.append(('a type is returned', g))
+            continue
+        if tname is None:
+            obls.append(('an indexed node has the type of its content', z3.And(g, z3.BoolVal(q.obj != 'contenttype'))))
+            continue
+        o = out.mem.o[q.obj]
+        vp = [str(qq.obj) for gg, qq in nodeh.ptr_cases(o.cells[q.off][0]) if qq.obj is not None] if q.off in o.cells else []
+        if not (vp and ('N7awkward%d%sE' % (len(tname), tname)) in vp[0]):
+            obls.append(('the type is a %s (%s)' % (tname, vp[:1]), g))
+            continue
+        cp = o.cells.get(q.off + 88)
+        inner = [gg for gg, qq in (nodeh.ptr_cases(cp[0]) if cp else []) if qq.obj == 'contenttype']
+        obls.append(('the inner type is the type the content reports', z3.And(g, z3.Not(z3.Or(inner + [z3.BoolVal(False)])))))
+        if size is not None:
+            c = o.cells.get(q.off + 104)
+            obls.append(('the size is the node\'s', z3.And(g, (c[0] != size) if c is not None else z3.BoolVal(True))))
+
+    def replay(model, ent):
+        head = {'ListOffsetArray64': 'listoffset64 3 0 1 3', 'ListOffsetArray32': 'listoffset32 3 0 1 3', 'ListOffsetArrayU32': 'listoffsetU32 3 0 1 3',
+                'ListArray64': 'list64 2 0 1 1 3', 'ListArray32': 'list32 2 0 1 1 3', 'ListArrayU32': 'listU32 2 0 1 1 3', 'RegularArray': 'regular 3 0',
+                'IndexedArray64': 'indexed64 2 0 1', 'IndexedArray32': 'indexed32 2 0 1', 'IndexedArrayU32': 'indexedU32 2 0 1',
+                'IndexedOptionArray64': 'option64 2 0 -1', 'IndexedOptionArray32': 'option32 2 0 -1', 'UnmaskedArray': 'unmasked',
+                'ByteMaskedArray': 'bytemask 2 1 0 1', 'BitMaskedArray': 'bitmask 1 5 1 3 1'}[cls]
+        prog = 'i64 6 0 1 2 3 4 5 ' + head + ' typestr'
+        kind_, got = fullnative.akrun(prog)
+        want = {'ListType': 'var * int64', 'RegularType': '3 * int64', 'OptionType': '?int64', None: 'int64'}[tname]
+        payload = dict(program=prog, native=[kind_, got], expected=want)
+        if kind_ != 'OK' or got != want:
+            return True, 'type of a %s over int64 numbers: native library %s %r, expected %r' % (cls, kind_, got, want), payload
+        return False, 'native type agrees (%s)' % got, payload
+    return mdischarge(nc.m, '%s::type' % cls, obls, [], replay=replay,
+                      extra=dict(bounds='one node of each class (no parameters, no type strings) over an opaque content whose form reports an opaque Type'))
+
+
+def jobs_node_type(tier):
+    return [(h_node_type, (c,), 900) for c in TYPE_OF]
 
 
 def jobs_record_keys(tier):
